@@ -14,4 +14,5 @@ SAME_VIEW = Macro("same_view", ["c"],
                   "Ann(c) == old(Ann(c)) and Us(c) == old(Us(c)) and Cat(c) == old(Cat(c)) and "
                   "c.bound_inf == old(c.bound_inf) and c.bound_sup == old(c.bound_sup)")
 EMPTY_U = Macro("no_units", ["S"], "forall([(u, Unit)], not S[u])")
-VIEW_MACROS = [RI, SAME_VIEW, EMPTY_U]
+NUM_UNITS = Macro("NumUnits", ["c"], "psum(lam(k, Cnt(c)[Kseq(c)[k]]), Nkeys(c))")
+VIEW_MACROS = [RI, SAME_VIEW, EMPTY_U, NUM_UNITS]
